@@ -53,6 +53,12 @@ claim('C07', 'reader/writer type agreement + constant-table equality + abstract 
       'payload = Payload{Sanitize(desc)} with exactly four fields copied, the accepted content-type constant is the one written, expiry = SigningTime+duration only if non-zero, blob digest algorithm from the key spec with fail-closed miss. '
       'These are necessary agreement conditions of the round trip; the round trip itself (cryptography, encoders) is not decidable statically.', 'DESIGN.md 2/C07')
 
+claim('C08', 'effect-site gates on the selection loop + finite decision table by abstract interpretation (precedence) + ownership/deep-copy analysis on SSA',
+      'Static, all-paths: a statement becomes the exact candidate only under generic == membership of the repository path (text before the last @, validated) in its own registryScopes and the wildcard candidate only under membership of "*"; '
+      'the loop has no early exit; precedence exact > wildcard > error is decided over candidate nil-ness by abstract interpretation; blob selection is by string equality of the name or by the global flag, global iff no name is given; '
+      'every statement handed out is a clone and each clone shares no slice/map/pointer with the document, recursively through struct-valued fields; selection errors surface as ErrorNoApplicableTrustPolicy at the three call sites. '
+      'Uniqueness of scopes (needed for order independence) is C09.', 'DESIGN.md 2/C08')
+
 NA_REASON = {}
 
 def main():
